@@ -427,10 +427,10 @@ def run(ctx, replay):
         # a proof or the correspondence broke and the quick sizes show no property failure: search further with the oracle
         for (e, L, U) in ENGINES:
             lines = []
-            for n in range(10, 17):
+            for n in range(10, 13):
                 lines += ops_for(e, L, U, n, lv[(e, L, U)], ctx.rng, full_sub=False)
             run_lines(ctx, exe, lines, False, "search")
-        ctx.notes["extended_search"] = "n = 10..16, oracle only"
+        ctx.notes["extended_search"] = "n = 10..12, oracle only"
     report(ctx, fails)
 
 
